@@ -1060,6 +1060,16 @@ pub fn generate(prop: &str, thorough: bool, rng: &mut Rng, emit: &mut Emit) {
                 let mut b = enc_varint(q);
                 b.extend(rng.bytes(5));
                 emit("dgram.read", vec![hex(&b)]);
+                // the same boundaries on the writing side: header size query = header written
+                if q <= qmax {
+                    for plen in [0usize, 1, 7] {
+                        let payload = rng.bytes(plen);
+                        let size = enc_varint(q).len() + plen;
+                        for cap in [size.saturating_sub(1), size, size + 2, size + 9] {
+                            emit("dgram.write", vec![s(q << 2), hex(&payload), s(cap)]);
+                        }
+                    }
+                }
             }
         }
         "C16" => {
